@@ -157,10 +157,16 @@ def with_data(prog, tid, last):
 def make_cases(tier):
     cases = []
 
+    rnd = [0]
+
     def add(mem, progs, pb):
         if not any(o[0] == 'g' for p in progs for o in p):
             return
-        cases.append({'mem': list(mem), 'threads': ['.'.join(p) for p in progs], 'pb': pb})
+        cases.append({'mem': list(mem), 'threads': ['.'.join(p) for p in progs], 'pb': pb, 'round': rnd[0]})
+    if tier == 'thorough':
+        # round 0 of the thorough tier is the complete quick tier; deeper rounds follow and are only started before the soft deadline
+        cases += make_cases('quick')
+        rnd[0] = 1
     if tier == 'quick':
         P = programs('quick', True)
         for a, b in itertools.combinations_with_replacement(P, 2):
@@ -180,6 +186,7 @@ def make_cases(tier):
         P = programs('thorough', True)
         for a, b in itertools.combinations_with_replacement(P, 2):
             add((1, 4), [a, b], 3)
+        rnd[0] = 2
         Q = programs('quick', True)
         for mem in ((1, 2), (0, 3)):
             for a, b in itertools.combinations_with_replacement(Q, 2):
@@ -188,6 +195,7 @@ def make_cases(tier):
             add((1, 4), [with_data([a], 1, False), with_data([b], 2, True)], 3)
             add((1, 4), [[a], ['w0', 'r0', b]], 3)
             add((1, 4), [[a], [b], ['w16', 'r16', 'z']], 3)
+        rnd[0] = 3
         T = [['g1'], ['g2'], ['g0'], ['g5'], ['z'], ['g1', 'z'], ['g1', 'g1'], ['z', 'g1']]
         for t in itertools.combinations_with_replacement(T, 3):
             add((1, 4), list(t), 3)
@@ -204,7 +212,7 @@ def main(tier):
     if tier == 'replay':
         return replay_file(sys.argv[2])
     chk = Check('C18', 'model_checking', tier)
-    budget = 150 if tier == 'quick' else 840
+    budget = 150 if tier == 'quick' else 900
     deadline_at = chk.t0 + budget
     try:
         cases = make_cases(tier)
@@ -218,7 +226,7 @@ def main(tier):
             exes, d = built[tuple(c['mem'])]
             nops = sum(len(t.split('.')) for t in c['threads'])
             for fl in FLAVOURS:
-                jobs.append({'case': {'mem': c['mem'], 'threads': c['threads']}, 'words': c['threads'], 'exe': exes[fl], 'flavour': fl, 'pb': c['pb'], 'db': 0,
+                jobs.append({'case': {'mem': c['mem'], 'threads': c['threads']}, 'words': c['threads'], 'exe': exes[fl], 'flavour': fl, 'pb': c['pb'], 'db': 0, 'round': c.get('round', 0),
                              'spurious': 0, 'weight': (len(c['threads']) ** 2) * nops ** c['pb'] * {'plain': 1, 'asan': 10, 'tsan': 20}[fl]})
         def projection(o):      # what a schedule can change apart from the order of events: per-thread results and the final descriptor
             return (o['status'], tuple(sorted(l for l in o['obs'].split('\n') if ' r ' in l)), o['end'])
